@@ -3,6 +3,8 @@
   fit the format; gene function annotations and sec_met domains read back from their text.
 -/
 import ASV.Spec.SerialQual
+import ASV.Proofs.SerialQ
+import ASV.Proofs.LocString
 namespace ASV.Serial
 open ASV
 
@@ -286,5 +288,328 @@ theorem smAdd_distinct : ∀ (ds acc : List SMDom), ((acc ++ ds).map (·.name)).
     unfold smAdd at ih ⊢
     simp only [List.foldl_cons, hnot, Bool.false_eq_true, if_false]
     simpa using ih
+
+/-! ### type II PKS annotation -/
+
+theorem dictSet_absent : ∀ (d : List (String × String)) (k v : String), k ∉ d.map (·.1) → dictSet d k v = d ++ [(k, v)]
+  | [], _, _, _ => rfl
+  | (k', v') :: rest, k, v, h => by
+    have h1 : k' ≠ k := fun e => h (by simp [e])
+    have h2 : k ∉ rest.map (·.1) := fun e => h (by simp [e])
+    simp [dictSet, h1, dictSet_absent rest k v h2]
+
+theorem t2ParseWeights_roundtrip : ∀ (ws acc : List (String × String)),
+    (∀ e ∈ ws, fitsFormat t2WeightFmt [e.1.toList, e.2.toList] = true) → ((acc ++ ws).map (·.1)).Nodup →
+    t2ParseWeights (ws.map t2WeightStr) acc = .ok (acc ++ ws)
+  | [], acc, _, _ => by simp [t2ParseWeights, pure, Except.pure]
+  | e :: ws, acc, h, hn => by
+    have hk : e.1 ∉ acc.map (·.1) := by
+      intro hm
+      rw [List.map_append, List.nodup_append] at hn
+      exact hn.2.2 e.1 hm e.1 (by simp) rfl
+    have ih := t2ParseWeights_roundtrip ws (acc ++ [e]) (fun x hx => h x (by simp [hx])) (by simpa using hn)
+    simp only [List.map_cons, t2ParseWeights, t2WeightStr, String.toList_ofList, rx_render t2WeightFmt _ (h e (by simp)),
+      String.ofList_toList, dictSet_absent acc e.1 e.2 hk]
+    simpa using ih
+
+theorem Q.eq_nil_of_get? : ∀ (l : Quals), (∀ k, Q.get? l k = none) → l = []
+  | [], _ => rfl
+  | (k, v) :: _, h => by have := h k; simp [Q.get?] at this
+
+def listQ (l : List String) : Option (List String) := if l.isEmpty then none else some l
+
+theorem get?_t2quals (t : T2) (k : String) :
+    Q.get? t.toQuals k =
+      if k = "t2pks_product_classes" then listQ t.classes
+      else if k = "t2pks_molecular_weights" then (if t.elongations.isEmpty then none else some (t.weights.map t2WeightStr))
+      else if k = "t2pks_malonyl_elongations" then listQ t.elongations
+      else if k = "t2pks_starter_units" then some t.starters
+      else none := by
+  unfold T2.toQuals listQ
+  cases t.elongations.isEmpty <;> cases t.classes.isEmpty <;>
+    by_cases a1 : k = "t2pks_product_classes" <;> by_cases a2 : k = "t2pks_molecular_weights" <;>
+    by_cases a3 : k = "t2pks_malonyl_elongations" <;> by_cases a4 : k = "t2pks_starter_units" <;>
+    simp_all [Q.get?_set, Q.get?] <;> (intro e; exact a4 e.symm)
+
+theorem t2_roundtrip (t : T2) (h : t.wf = true) : T2.fromQuals t.toQuals = .ok (some t, []) := by
+  have hwf := h
+  simp only [T2.wf, Bool.and_eq_true, Bool.not_eq_true', beq_iff_eq, decide_eq_true_eq, List.all_eq_true] at h
+  obtain ⟨⟨⟨h1, h2⟩, h3⟩, h4⟩ := h
+  have hw := t2ParseWeights_roundtrip t.weights [] h4 (by simpa using h3)
+  simp only [List.nil_append] at hw
+  have hleft : Q.erase (Q.erase (Q.erase (Q.erase t.toQuals "t2pks_starter_units") "t2pks_malonyl_elongations")
+      "t2pks_molecular_weights") "t2pks_product_classes" = [] := by
+    apply Q.eq_nil_of_get?
+    intro k
+    simp only [Q.get?_erase, get?_t2quals]
+    by_cases a1 : k = "t2pks_product_classes" <;> by_cases a2 : k = "t2pks_molecular_weights" <;>
+      by_cases a3 : k = "t2pks_malonyl_elongations" <;> by_cases a4 : k = "t2pks_starter_units" <;> simp [a1, a2, a3, a4]
+  unfold T2.fromQuals
+  simp only [Q.get?_erase, get?_t2quals, hleft]
+  simp only [show ("t2pks_starter_units" = "t2pks_product_classes") = False by decide,
+    show ("t2pks_starter_units" = "t2pks_molecular_weights") = False by decide,
+    show ("t2pks_starter_units" = "t2pks_malonyl_elongations") = False by decide,
+    show ("t2pks_malonyl_elongations" = "t2pks_product_classes") = False by decide,
+    show ("t2pks_malonyl_elongations" = "t2pks_molecular_weights") = False by decide,
+    show ("t2pks_malonyl_elongations" = "t2pks_starter_units") = False by decide,
+    show ("t2pks_molecular_weights" = "t2pks_product_classes") = False by decide,
+    show ("t2pks_molecular_weights" = "t2pks_malonyl_elongations") = False by decide,
+    show ("t2pks_molecular_weights" = "t2pks_starter_units") = False by decide,
+    show ("t2pks_product_classes" = "t2pks_molecular_weights") = False by decide,
+    show ("t2pks_product_classes" = "t2pks_malonyl_elongations") = False by decide,
+    show ("t2pks_product_classes" = "t2pks_starter_units") = False by decide,
+    if_false, if_true, Option.getD_some, h1, Bool.false_eq_true]
+  obtain ⟨starters, elongations, classes, weights⟩ := t
+  simp only at h2 hw ⊢
+  unfold listQ
+  cases he : elongations.isEmpty <;> cases hc : classes.isEmpty
+  · have hwe : weights.isEmpty = false := by rw [← h2, he]
+    have hne : ¬ elongations = [] := fun e => by simp [e] at he
+    simp [hw, hwe, hne, pure, Except.pure]
+  · have hwe : weights.isEmpty = false := by rw [← h2, he]
+    have hne : ¬ elongations = [] := fun e => by simp [e] at he
+    have : classes = [] := List.isEmpty_iff.1 hc
+    subst this
+    simp [hw, hwe, hne, pure, Except.pure]
+  · have hwe : weights = [] := List.isEmpty_iff.1 (by rw [← h2, he])
+    have : elongations = [] := List.isEmpty_iff.1 he
+    subst this hwe
+    simp [t2ParseWeights, pure, Except.pure]
+  · have hwe : weights = [] := List.isEmpty_iff.1 (by rw [← h2, he])
+    have e1 : elongations = [] := List.isEmpty_iff.1 he
+    have e2 : classes = [] := List.isEmpty_iff.1 hc
+    subst e1 e2 hwe
+    simp [t2ParseWeights, pure, Except.pure]
+
+/-! ### Pfam identifier, `db_xref`, gene ontology terms -/
+
+def goQ (e : String × String) : String × List String := (e.1, [e.2])
+
+theorem insertGo_map (e : String × String) : ∀ l, (insertGo e l).map goQ = Q.insertKey (goQ e) (l.map goQ)
+  | [] => rfl
+  | y :: ys => by
+    have ih := insertGo_map e ys
+    simp only [insertGo, List.map_cons, Q.insertKey]
+    have e1 : (goQ e).1 = e.1 := rfl
+    have e2 : (goQ y).1 = y.1 := rfl
+    rw [e1, e2]
+    by_cases h : e.1 < y.1
+    · simp [h]
+    · simp only [h, if_false, List.map_cons]
+      rw [ih]
+
+theorem sortGo_map_aux (g : List (String × String)) : ∀ acc, (g.foldl (fun a e => insertGo e a) acc).map goQ
+    = (g.map goQ).foldl (fun a e => Q.insertKey e a) (acc.map goQ) := by
+  induction g with
+  | nil => intro acc; rfl
+  | cons e rest ih => intro acc; simp only [List.foldl_cons, List.map_cons]; rw [ih, insertGo_map]
+
+theorem sortGo_map (g : List (String × String)) : (sortGo g).map goQ = Q.sortKeys (g.map goQ) := by
+  simpa [sortGo, Q.sortKeys] using sortGo_map_aux g []
+
+theorem goQ_injective : ∀ (a b : List (String × String)), a.map goQ = b.map goQ → a = b
+  | [], [], _ => rfl
+  | [], _ :: _, h => by simp at h
+  | _ :: _, [], h => by simp at h
+  | x :: xs, y :: ys, h => by
+    simp only [List.map_cons, List.cons.injEq, goQ, Prod.mk.injEq] at h
+    obtain ⟨⟨h1, h2⟩, h3⟩ := h
+    have : x = y := Prod.ext h1 h2.1
+    rw [this, goQ_injective xs ys h3]
+
+theorem keys_goQ (g : List (String × String)) : Q.keys (g.map goQ) = g.map (·.1) := by
+  simp [Q.keys, goQ, List.map_map, Function.comp_def]
+
+theorem sortGo_idem (g : List (String × String)) (hn : (g.map (·.1)).Nodup) : sortGo (sortGo g) = sortGo g := by
+  apply goQ_injective
+  have hq : Q.Nodup (g.map goQ) := by unfold Q.Nodup; rw [keys_goQ]; exact hn
+  rw [sortGo_map, sortGo_map]
+  exact Q.sortKeys_congr (Q.nodup_sortKeys hq) hq (Q.get?_sortKeys hq)
+
+theorem insertKey_keys (e : String × List String) : ∀ l, Q.keys (Q.insertKey e l) = insertStr e.1 (Q.keys l)
+  | [] => rfl
+  | y :: ys => by
+    simp only [Q.insertKey, Q.keys, List.map_cons, insertStr]
+    by_cases h : e.1 < y.1
+    · simp [h]
+    · simp only [h, if_false, List.map_cons]
+      have := insertKey_keys e ys
+      simp only [Q.keys] at this
+      rw [this]
+
+theorem sortKeys_keys_aux (q : Quals) : ∀ acc, Q.keys (q.foldl (fun a e => Q.insertKey e a) acc)
+    = (Q.keys q).foldl (fun a x => insertStr x a) (Q.keys acc) := by
+  induction q with
+  | nil => intro acc; rfl
+  | cons e rest ih =>
+    intro acc
+    simp only [List.foldl_cons, Q.keys, List.map_cons]
+    have := ih (Q.insertKey e acc)
+    simp only [Q.keys] at this
+    rw [this]
+    have h2 := insertKey_keys e acc
+    simp only [Q.keys] at h2
+    rw [h2]
+
+theorem sortGo_ids (g : List (String × String)) : (sortGo g).map (·.1) = sortStrs (g.map (·.1)) := by
+  rw [← keys_goQ, sortGo_map, ← keys_goQ g]
+  simpa [Q.sortKeys, sortStrs, Q.keys] using sortKeys_keys_aux (g.map goQ) []
+
+theorem partition_goStr : ∀ (i d : List Char), hasColonSpace i = false → partitionColonSpace (i ++ ':' :: ' ' :: d) = some (i, d)
+  | [], d, _ => rfl
+  | [c], d, h => by
+    have ih := partition_goStr [] d rfl
+    simp only [List.nil_append] at ih
+    simp only [List.cons_append, List.nil_append]
+    rw [partitionColonSpace.eq_def]
+    by_cases hc : c = ':'
+    · subst hc; simp [ih]
+    · simp [hc, ih]
+  | c :: c2 :: i, d, h => by
+    have h' : hasColonSpace (c2 :: i) = false := by
+      simp only [hasColonSpace, Bool.or_eq_false_iff] at h ⊢
+      exact h.2
+    have ih := partition_goStr (c2 :: i) d h'
+    simp only [List.cons_append] at ih ⊢
+    rw [partitionColonSpace.eq_def]
+    by_cases hc : c = ':'
+    · subst hc
+      have h2 : c2 ≠ ' ' := by
+        intro e
+        subst e
+        simp [hasColonSpace] at h
+      simp [h2, ih]
+    · simp [hc, ih]
+
+theorem goFromQualifier_roundtrip : ∀ (g acc : List (String × String)),
+    (∀ e ∈ g, hasColonSpace e.1.toList = false) → ((acc ++ g).map (·.1)).Nodup →
+    goFromQualifier (g.map goStr) acc = .ok (acc ++ g)
+  | [], acc, _, _ => by simp [goFromQualifier, pure, Except.pure]
+  | e :: g, acc, h, hn => by
+    have hk : e.1 ∉ acc.map (·.1) := by
+      intro hm
+      rw [List.map_append, List.nodup_append] at hn
+      exact hn.2.2 e.1 hm e.1 (by simp) rfl
+    have ih := goFromQualifier_roundtrip g (acc ++ [e]) (fun x hx => h x (by simp [hx])) (by simpa using hn)
+    simp only [List.map_cons, goFromQualifier, goStr, String.toList_ofList, partition_goStr _ _ (h e (by simp)),
+      String.ofList_toList, dictSet_absent acc e.1 e.2 hk]
+    simpa using ih
+
+theorem span_dot : ∀ (cs r : List Char), (∀ c ∈ cs, c ≠ '.') →
+    (cs ++ '.' :: r).takeWhile (· != '.') = cs ∧ (cs ++ '.' :: r).dropWhile (· != '.') = '.' :: r
+  | [], r, _ => by simp
+  | c :: cs, r, h => by
+    have hc : c ≠ '.' := h c (by simp)
+    have ih := span_dot cs r (fun x hx => h x (by simp [hx]))
+    simp [hc, ih.1, ih.2]
+
+theorem span_nodot : ∀ (cs : List Char), (∀ c ∈ cs, c ≠ '.') →
+    cs.takeWhile (· != '.') = cs ∧ cs.dropWhile (· != '.') = []
+  | [], _ => by simp
+  | c :: cs, h => by
+    have hc : c ≠ '.' := h c (by simp)
+    have ih := span_nodot cs (fun x hx => h x (by simp [hx]))
+    simp [hc, ih.1, ih.2]
+
+theorem pfam_ident_nodot (cs : List Char) (h2 : cs.take 2 = ['P', 'F']) (h3 : (cs.drop 2).all Char.isDigit = true) :
+    ∀ c ∈ cs, c ≠ '.' := by
+  intro c hc
+  rw [← List.take_append_drop 2 cs, List.mem_append] at hc
+  rcases hc with hc | hc
+  · rw [h2] at hc
+    simp only [List.mem_cons, List.mem_nil_iff, or_false] at hc
+    rcases hc with e | e <;> (subst e; decide)
+  · have := List.all_eq_true.1 h3 c hc
+    intro e
+    subst e
+    exact absurd this (by decide)
+
+theorem parsePfamName_fullId (p : PfamX) (h : p.wf = true) : parsePfamName p.fullId = .ok (p.identifier, p.version) := by
+  obtain ⟨desc, ident, version, go⟩ := p
+  simp only [PfamX.wf, Bool.and_eq_true, Bool.not_eq_true', beq_iff_eq, bne_iff_ne, ne_eq] at h
+  obtain ⟨⟨⟨_, ⟨⟨h1, h2⟩, h3⟩⟩, h4⟩, _⟩ := h
+  have hnd := pfam_ident_nodot ident.toList h2 h3
+  have hvalid : (ident.toList.length = 7 ∧ ident.toList.take 2 = ['P', 'F'] ∧ (ident.toList.drop 2).all Char.isDigit = true) :=
+    ⟨h1, h2, h3⟩
+  unfold parsePfamName PfamX.fullId
+  cases version with
+  | none =>
+    simp only [(span_nodot _ hnd).1, (span_nodot _ hnd).2, pure, Except.pure, hvalid, and_self, if_true, String.ofList_toList]
+  | some v =>
+    have hv : v ≠ 0 := fun e => h4 (by rw [e])
+    simp only [hv, if_false, String.toList_ofList, (span_dot _ (intChars v) hnd).1, (span_dot _ (intChars v) hnd).2,
+      parseInt_intChars, pure, Except.pure, hvalid, and_self, if_true, String.ofList_toList]
+
+/-- what is read from the three written qualifiers: the same description, identifier and version, the gene
+    ontology terms in the order of their ids, and the sorted ids as the `db_xref` leftovers -/
+theorem pfam_read_quals (p : PfamX) (h : p.wf = true) :
+    PfamX.read p.quals = .ok ({ p with go := p.go.map sortGo }, match p.go with | some g => sortStrs (g.map (·.1)) | none => []) := by
+  have hname := parsePfamName_fullId p h
+  obtain ⟨desc, ident, version, go⟩ := p
+  have hwf := h
+  simp only [PfamX.wf, Bool.and_eq_true, Bool.not_eq_true', beq_iff_eq, bne_iff_ne, ne_eq] at h
+  obtain ⟨⟨⟨hd, ⟨⟨h1, h2⟩, h3⟩⟩, _⟩, hgo⟩ := h
+  have hpf : (['P', 'F'].isPrefixOf (PfamX.fullId ⟨desc, ident, version, go⟩).toList) = true := by
+    unfold PfamX.fullId
+    have hp : ['P', 'F'].isPrefixOf ident.toList = true := by
+      rw [← List.take_append_drop 2 ident.toList, h2]; rfl
+    cases version with
+    | none => exact hp
+    | some v =>
+      simp only
+      split
+      · exact hp
+      · rw [String.toList_ofList, ← List.take_append_drop 2 ident.toList, h2]; rfl
+  cases go with
+  | none =>
+    simp only [PfamX.read, PfamX.quals, Q.get?, if_true, Option.getD_some, hpf, hd, hname, Option.getD_none, pure, Except.pure,
+      show ("description" = "db_xref") = False by decide, show ("description" = "gene_ontologies") = False by decide,
+      show ("db_xref" = "gene_ontologies") = False by decide, if_false, Bool.not_true, Bool.false_eq_true, Option.map_none]
+  | some g =>
+    simp only [Bool.and_eq_true, Bool.not_eq_true', decide_eq_true_eq, List.all_eq_true] at hgo
+    obtain ⟨⟨g1, g2⟩, g3⟩ := hgo
+    have hids : ((sortGo g).map (·.1)).Nodup := by
+      rw [sortGo_ids]; exact (sortStrs_perm _).nodup_iff.2 g2
+    have hcol : ∀ e ∈ sortGo g, hasColonSpace e.1.toList = false := by
+      intro e he
+      have hm : e.1 ∈ (sortGo g).map (·.1) := List.mem_map_of_mem he
+      rw [sortGo_ids] at hm
+      have hm2 := (sortStrs_perm _).mem_iff.1 hm
+      obtain ⟨e0, he0, he1⟩ := List.mem_map.1 hm2
+      have := g3 e0 he0
+      rw [← he1]
+      simpa using this
+    have hparse := goFromQualifier_roundtrip (sortGo g) [] hcol (by simpa using hids)
+    simp only [List.nil_append] at hparse
+    have hne : (sortGo g).map goStr ≠ [] := by
+      intro e
+      have hl : ((sortGo g).map (·.1)).length = 0 := by
+        have := congrArg List.length e
+        simpa using this
+      rw [sortGo_ids, (sortStrs_perm _).length_eq] at hl
+      have : g = [] := by
+        cases g with
+        | nil => rfl
+        | cons _ _ => simp at hl
+      subst this
+      simp at g1
+    simp only [PfamX.read, PfamX.quals, Q.get?, if_true, Option.getD_some, hpf, hd, hname, pure, Except.pure,
+      show ("description" = "db_xref") = False by decide, show ("description" = "gene_ontologies") = False by decide,
+      show ("db_xref" = "gene_ontologies") = False by decide, if_false, Bool.not_true, Bool.false_eq_true, Option.map_some]
+    cases hterms : (sortGo g).map goStr with
+    | nil => exact absurd hterms hne
+    | cons t ts =>
+      rw [← hterms, hparse]
+
+/-- … and the re-read data writes the same three qualifiers: the first write is a fixed point whatever the order
+    in which the gene ontology terms were attached -/
+theorem pfam_second_write (p : PfamX) (h : p.wf = true) : ({ p with go := p.go.map sortGo } : PfamX).quals = p.quals := by
+  obtain ⟨desc, ident, version, go⟩ := p
+  cases go with
+  | none => rfl
+  | some g =>
+    simp only [PfamX.wf, Bool.and_eq_true, Bool.not_eq_true', decide_eq_true_eq] at h
+    obtain ⟨_, ⟨_, g2⟩, _⟩ := h
+    simp only [PfamX.quals, Option.map_some, PfamX.fullId, sortGo_ids, sortStrs_idem, sortGo_idem g g2]
 
 end ASV.Serial
